@@ -193,7 +193,8 @@ func revListFlagsOK(flags []string) bool {
 	seen := map[string]bool{}
 	for _, f := range flags {
 		switch f {
-		case "--objects", "--stdin", "--date-order", "--topo-order", "--author-date-order":
+		case "--objects", "--stdin", "--date-order", "--topo-order", "--author-date-order",
+			"--use-bitmap-index", "--reverse":
 			seen[f] = true
 		default:
 			return false
@@ -205,6 +206,14 @@ func revListFlagsOK(flags []string) bool {
 // RevListOrdered tells whether the rev-list invocation asked for an order in
 // which no parent precedes its children.
 func RevListOrdered(args []string) bool {
+	for _, f := range args {
+		// with a reachability bitmap git answers from the bitmap and ignores the
+		// ordering flags (the model repository may always have one); --reverse
+		// lists parents first
+		if f == "--use-bitmap-index" || f == "--reverse" {
+			return false
+		}
+	}
 	for _, f := range args {
 		if f == "--date-order" || f == "--topo-order" || f == "--author-date-order" {
 			return true
